@@ -206,9 +206,75 @@ static void vf_native(void)
                            "expect": r"Polygons_inside\.postcondition"}])
 
 
+def unit_polygon_distance():
+    """dbPolygonDistance, option polin: the inside / outside decision of a sample is asked at the location of THAT sample"""
+    pre = """
+#define nullptr 0
+#define TEST 1.234e30
+#define MIN(a,b) (((a) < (b)) ? (a) : (b))
+#define ABS(a) (((a) < 0.) ? -(a) : (a))
+int nondet_int(); bool nondet_bool(); double nondet_double();
+static bool FFFF(double v) { return v > 1.0e30 || v != v; }
+#define NS 2
+/* VectorDouble with the same NON-explicit (count, value) constructor as VectorNumT: a double converts to a vector of that many zeros */
+struct VectorDouble { double a[4]; int n;
+  VectorDouble() : n(0) {} VectorDouble(int count, double value = 0.) : n(count) { for (int i = 0; i < 4; i++) a[i] = value; }
+  int size() const { return n; }
+  double& operator[](int i) { __CPROVER_assert(0 <= i && i < n && i < 4, "vector index inside the vector"); return a[i]; }
+  double operator[](int i) const { __CPROVER_assert(0 <= i && i < n && i < 4, "vector index inside the vector"); return a[i]; } };
+struct VectorString {}; struct ELoc { int v; }; static ELoc ELOC_Z;      /* (static data members crash CBMC's front end) */
+double __CPROVER_uninterpreted_coord(int, int);
+int g_cur_iech; int g_inside_calls, g_inside_bad;
+class Db { public: double arr[NS];
+  int getSampleNumber() const { return NS; } int addColumnsByConstant(int n, double v) { for (int i = 0; i < NS; i++) arr[i] = v; return 7; }
+  bool isActive(int iech) const { return nondet_bool(); }
+  double getCoordinate(int iech, int idim) const { g_cur_iech = iech; return __CPROVER_uninterpreted_coord(iech, idim); }
+  double getArray(int iech, int iptr) const { __CPROVER_assert(0 <= iech && iech < NS, "sample rank"); return arr[iech]; }
+  void setArray(int iech, int iptr, double v) { __CPROVER_assert(0 <= iech && iech < NS, "sample rank"); arr[iech] = v; } };
+struct PolyPoint2D { double dist; };
+struct PolyElem { VectorDouble getX() const { return VectorDouble(); } VectorDouble getY() const { return VectorDouble(); } };
+struct PolyLine2D { PolyLine2D(const VectorDouble&, const VectorDouble&) {} PolyPoint2D getPLIndex(const VectorDouble& t) const { PolyPoint2D p; p.dist = nondet_double(); return p; } };
+class Polygons { public: PolyElem e;
+  int getPolyElemNumber() const { return 1; } const PolyElem& getPolyElem(int i) const { PolyElem* q = (PolyElem*) &e; return *q; }
+  /* Polygons::inside(coor, flag_nested) (contract: unit C20.Polygons.inside): here it records whether it is asked about the current sample */
+  bool inside(const VectorDouble& coor, bool flag_nested = false) const
+  { g_inside_calls++;
+    if (!(coor.n == 2 && coor.a[0] == __CPROVER_uninterpreted_coord(g_cur_iech, 0) && coor.a[1] == __CPROVER_uninterpreted_coord(g_cur_iech, 1) && !flag_nested)) g_inside_bad = 1;
+    return nondet_bool(); } };
+struct NamingConvention { void setNamesAndLocators(Db*, const VectorString&, const ELoc&, int, Db*, int) const {} };
+"""
+    f = Fn("dbPolygonDistance", PG, r"^int dbPolygonDistance\(Db \*db,[^{]*?const NamingConvention &namconv\)\s*$",
+           rewrites=[  # what overload resolution makes of 'inside(double, double)': vector of (size_t) x zeros, flag = (y != 0)
+                     (r"polygon->inside\(db->getCoordinate\(iech, 0\),\s*db->getCoordinate\(iech, 1\)\)",
+                      "polygon->inside(VectorDouble((int) db->getCoordinate(iech, 0)), db->getCoordinate(iech, 1) != 0.)", "opt"),
+                     (r"ELoc::Z\b", "ELOC_Z", "opt")])
+    h = """
+void vf_harness()
+{
+  Db db; Polygons poly; NamingConvention nc; g_inside_calls = 0; g_inside_bad = 0; g_cur_iech = -1;
+  __CPROVER_assume(__CPROVER_uninterpreted_coord(0, 0) == __CPROVER_uninterpreted_coord(0, 0) && __CPROVER_uninterpreted_coord(1, 0) == __CPROVER_uninterpreted_coord(1, 0));   /* defined coordinates */
+  __CPROVER_assume(__CPROVER_uninterpreted_coord(0, 1) == __CPROVER_uninterpreted_coord(0, 1) && __CPROVER_uninterpreted_coord(1, 1) == __CPROVER_uninterpreted_coord(1, 1));
+  int polin = nondet_int(), scale = nondet_int(); __CPROVER_assume(-3 <= polin && polin <= 3 && -1 <= scale && scale <= 1);
+  int rc = dbPolygonDistance(&db, &poly, nondet_double(), scale, polin, nc);
+  __CPROVER_assert(!g_inside_bad, "every inside / outside decision is asked for the two coordinates of the sample being processed (union rule)");
+  __CPROVER_assert(polin == 0 || g_inside_calls >= 1, "with the polygon option the decision is actually taken");
+  VF_REACH();
+}
+"""
+    return Unit("C20.dbPolygonDistance.inside_args", [f], mode="cpp", prelude=pre, harness=h, unwind=NS_PD + 2, checks=[], backends=("minisat", "cadical"), timeout=600,
+                bounded="2 samples, 1 polygon element (unwinding assertions)",
+                claim=("dbPolygonDistance with the polygon option: each inside / outside decision handed to Polygons::inside concerns a vector of exactly the two "
+                       "coordinates of the sample being processed"),
+                assumptions=["Route X; Db, PolyLine2D (distance) and Polygons::inside are stubs; VectorDouble keeps the non-explicit (count, value) constructor of VectorNumT so "
+                             "that implicit conversions stay visible"],
+                canaries=[{"fn": "dbPolygonDistance", "rx": r"target\[1\] = db->getCoordinate\(iech, 1\);\s*\n\s*int inside", "rp": "target[1] = db->getCoordinate(iech, 0);\n      int inside", "expect": r"assertion"}])
+
+NS_PD = 4
+
+
 def units(tier):
     npmax = 6 if tier == "quick" else 9
-    return [unit_inside_decision(npmax), unit_inside_abscissa(), unit_inside3d(), unit_polygons_inside(4 if tier == "quick" else 6)]
+    return [unit_inside_decision(npmax), unit_inside_abscissa(), unit_inside3d(), unit_polygons_inside(4 if tier == "quick" else 6), unit_polygon_distance()]
 
 
 META = {
